@@ -157,6 +157,14 @@ impl Prop for C04 {
     fn floor(&self, tier: Tier) -> u64 {
         tier.pick(5_000, 100_000)
     }
+    fn post(&self, ctx: &Ctx) -> Option<CaseOut> {
+        if ctx.tier != Tier::Thorough {
+            return None;
+        }
+        let mut out = CaseOut::default();
+        crate::sanit::asan_replay(ctx, "C04", &mut out);
+        Some(out)
+    }
     fn assumptions(&self) -> Vec<String> {
         vec![
             "step hooks (feature verif) are placed in the lexer loop, parser token lookup and wrapper heap loop; loops without a hook are only covered by the CPU-time watchdog".into(),
